@@ -122,14 +122,30 @@ def oracle(lines, trace):
                     fails.append(("c07/connector-view", "connector dialled %s but remote_endpoint() says %s" % (dialled, rep[0]["ret"][1:4])))
             if h in comp and comp[h][1][0] == 3 and comp[h][0] <= e["t"]:
                 fails.append(("c07/refusal-delay", "connection_refused delivered without a positive delay"))
-    # a connect that was queued when its acceptor was closed is never completed by a later accept
+    # a connect that was queued when its acceptor was closed is never completed by a later accept:
+    # connects issued before the close can only succeed by being matched with an accept that
+    # completed before the close (the SYN+ACK of such a pair may well arrive after the close)
     tcl = [e["t"] for e in ev if e["op"][0] == "tcp_close" and e["op"][1] == "1"]
     if tcl:
+        acc_h = set()
+        for e in ev:
+            if e["op"][0] == "accept":
+                acc_h.add(int(e["op"][4]))
+            elif e["op"][0] == "accept2":
+                acc_h.add(int(e["op"][3]))
+        acc_ok_before = sum(1 for h in acc_h if h in comp and comp[h][1][0] == 0 and comp[h][0] <= tcl[0])
+        late = []
+        conn_ok = 0
         for e in ev:
             if e["op"][0] == "tcp_connect" and e["t"] < tcl[0]:
                 h = int(e["op"][5])
-                if h in comp and comp[h][1][0] == 0 and comp[h][0] > tcl[0]:
-                    fails.append(("c07/stale-backlog", "a connect issued at t=%d, still queued when the acceptor was closed at t=%d, completed with success at t=%d" % (e["t"], tcl[0], comp[h][0])))
+                if h in comp and comp[h][1][0] == 0:
+                    conn_ok += 1
+                    if comp[h][0] > tcl[0]:
+                        late.append((e["t"], comp[h][0]))
+        if late and conn_ok > acc_ok_before:
+            fails.append(("c07/stale-backlog", "a connect issued at t=%d, still queued when the acceptor was closed at t=%d, completed with success at t=%d "
+                          "(%d connects issued before the close succeeded, %d accepts had completed by then)" % (late[0][0], tcl[0], late[0][1], conn_ok, acc_ok_before)))
     # backlog scenario: connections are handed out in arrival order
     if any(l.startswith("M async_wait 99 ") for l in lines):
         issue = {}
